@@ -45,6 +45,10 @@ use std::{cmp, mem, slice};
 /// `log::debug!`: no effect on the program state (the arguments are not evaluated here)
 macro_rules! debug { ($($t:tt)*) => { () } }
 
+// `impl PartialEq for Serial` (src/rtr/state.rs: `self.0 == other.0`, PROVED in unit rtr_serial as Serial::eq): declared
+// outside verus! so that `==` on serial numbers resolves in the extracted bodies; its meaning is axiom_serial_eq below
+impl PartialEq for state::Serial { fn eq(&self, _other: &Self) -> bool { unimplemented!() } }
+
 verus! {
 
 //@include shared/rtr_wire.v.rs
@@ -175,6 +179,16 @@ pub mod state {
     }
 }
 use state::{Serial, State};
+pub mod sax {
+    use super::*;
+    /// Serial::eq compares the wrapped numbers (contract proved on the real body in unit rtr_serial)
+    #[verifier::external_body]
+    pub broadcast proof fn axiom_serial_eq_obeys()
+        ensures #[trigger] <Serial as PartialEqSpec>::obeys_eq_spec() {}
+    #[verifier::external_body]
+    pub broadcast proof fn axiom_serial_eq(a: Serial, b: Serial)
+        ensures #[trigger] a.eq_spec(&b) == (a.0 == b.0) {}
+}
 
 // =====================================================================================================
 // src/rtr/payload.rs: the items (real item texts; MaxLenPrefix opaque) and their content view
@@ -613,7 +627,7 @@ pub mod xlem {
 // =====================================================================================================
 pub mod pduf {
 use super::*; use super::env::*;
-broadcast use {ax::axiom_mem16_len, ax::axiom_mem32_len, ax::axiom_mem128_len, ax::axiom_size_of_pdus, lem::lemma_advanced_trans, lem::lemma_advanced_refl, lem::lemma_take_take, lem::lemma_hwire_fields, lem::lemma_hwire_inj, lem::lemma_wire_ipv4_prefix, lem::lemma_wire_router_key_fixed, lem::lemma_wire_aspa_fixed, lem::lemma_wire_ipv6_prefix, lem::lemma_wire_end_of_data_v0, lem::lemma_wire_end_of_data_v1, lem::lemma_wire_cache_response, xax::axiom_size_of_more_pdus, xlem::lemma_wire_cache_reset};
+broadcast use {sax::axiom_serial_eq_obeys, sax::axiom_serial_eq, ax::axiom_mem16_len, ax::axiom_mem32_len, ax::axiom_mem128_len, ax::axiom_size_of_pdus, lem::lemma_advanced_trans, lem::lemma_advanced_refl, lem::lemma_take_take, lem::lemma_hwire_fields, lem::lemma_hwire_inj, lem::lemma_wire_ipv4_prefix, lem::lemma_wire_router_key_fixed, lem::lemma_wire_aspa_fixed, lem::lemma_wire_ipv6_prefix, lem::lemma_wire_end_of_data_v0, lem::lemma_wire_end_of_data_v1, lem::lemma_wire_cache_response, xax::axiom_size_of_more_pdus, xlem::lemma_wire_cache_reset};
 impl Header {
     //@stub pdu_read :: impl Header :: version
     pub fn version(self) -> (r: u8)
@@ -1099,7 +1113,7 @@ use super::*; use super::env::*;
 use super::payload::{Action, Payload, Timing};
 use super::pdu;
 use super::state::State;
-broadcast use {ax::axiom_mem16_len, ax::axiom_mem32_len, lem::lemma_advanced_trans, lem::lemma_advanced_refl, lem::lemma_hwire_fields, lem::lemma_wire_cache_response, xlem::lemma_wire_cache_reset};
+broadcast use {sax::axiom_serial_eq_obeys, sax::axiom_serial_eq, ax::axiom_mem16_len, ax::axiom_mem32_len, lem::lemma_advanced_trans, lem::lemma_advanced_refl, lem::lemma_hwire_fields, lem::lemma_wire_cache_response, xlem::lemma_wire_cache_reset};
 
 //@item src/rtr/client.rs :: const INITIAL_VERSION: u8 = 2
 //@item src/rtr/client.rs :: pub enum PayloadError keepderive=Clone,Copy
@@ -1445,7 +1459,7 @@ use super::*; use super::env::*;
 use super::payload::{Action, PayloadRef, Timing};
 use super::pdu;
 use super::state::State;
-broadcast use {ax::axiom_mem16_len, ax::axiom_mem32_len, lem::lemma_advanced_trans, lem::lemma_advanced_refl, lem::lemma_hwire_fields, lem::lemma_wire_cache_response, xlem::lemma_wire_cache_reset, xlem::lemma_eod_wire};
+broadcast use {sax::axiom_serial_eq_obeys, sax::axiom_serial_eq, ax::axiom_mem16_len, ax::axiom_mem32_len, lem::lemma_advanced_trans, lem::lemma_advanced_refl, lem::lemma_hwire_fields, lem::lemma_wire_cache_response, xlem::lemma_wire_cache_reset, xlem::lemma_eod_wire};
 
 //@item src/rtr/server.rs :: pub const MAX_VERSION: u8 = 2
 //@item src/rtr/server.rs :: const MAX_VERSION_ERROR: &str sub "&str" "&'static str"
